@@ -91,11 +91,12 @@ class Keys:
         self.aead = AESGCM(self.key) if aead == "gcm" else ChaCha20Poly1305(self.key)
         self.hp_kind = hpk
 
-    def next(self):
-        """RFC 9001 6.1: secret_<n+1> = HKDF-Expand-Label(secret_<n>, "quic ku", "", Hash.length);
-        the header protection key is NOT updated."""
+    def next(self, label=None):
+        """RFC 9001 6.1: secret_<n+1> = HKDF-Expand-Label(secret_<n>, "quic ku", "", Hash.length)
+        (RFC 9369 3.3.2: "quicv2 ku" for version 2); the header protection key is NOT updated.
+        `label` overrides the RFC label (used only to classify a deviation of the implementation)."""
         h = SUITES[self.suite][0]
-        nxt = hkdf_expand_label(h, self.secret, LABEL_PREFIX[self.version] + b"ku", b"", h.digest_size)
+        nxt = hkdf_expand_label(h, self.secret, label or (LABEL_PREFIX[self.version] + b"ku"), b"", h.digest_size)
         k = Keys(self.suite, nxt, self.version)
         k.hp = self.hp
         return k
@@ -111,7 +112,17 @@ class Keys:
         return enc.update(bytes(5))
 
     def nonce(self, pn):
+        """RFC 9001 5.3: the 62-bit packet number, left-padded with zeros to the IV size, XOR IV."""
         return bytes(a ^ b for a, b in zip(self.iv, pn.to_bytes(12, "big")))
+
+    def seal(self, pn, header, payload):
+        return self.aead.encrypt(self.nonce(pn), bytes(payload), bytes(header))
+
+    def open_raw(self, nonce, header, ct):
+        try:
+            return self.aead.decrypt(bytes(nonce), bytes(ct), bytes(header))
+        except InvalidTag:
+            return None
 
 
 def initial_keys(version, dcid):
@@ -154,7 +165,7 @@ def protect(keys, header, payload, pn):
     return bytes(hdr) + ct
 
 
-def unprotect(keys, packet, pn_offset, expected_pn, next_keys=None, key_phase=0):
+def unprotect(keys, packet, pn_offset, expected_pn, next_keys=None, key_phase=0, decode=None):
     """-> (plain header, payload, full pn, used_next).  keys: current receive keys with key phase
     `key_phase`; next_keys used when the Key Phase bit of a short header differs (RFC 9001 6.3)."""
     sample = packet[pn_offset + 4:pn_offset + 20]
@@ -165,14 +176,14 @@ def unprotect(keys, packet, pn_offset, expected_pn, next_keys=None, key_phase=0)
     pnl = (first & 3) + 1
     pnb = bytes(packet[pn_offset + i] ^ mask[1 + i] for i in range(pnl))
     header = bytes([first]) + bytes(packet[1:pn_offset]) + pnb
-    pn = decode_pn(int.from_bytes(pnb, "big"), 8 * pnl, expected_pn)
+    pn = (decode or decode_pn)(int.from_bytes(pnb, "big"), 8 * pnl, expected_pn)   # `decode` only to classify deviations
     k, used_next = keys, False
     if not (first & 0x80) and ((first >> 2) & 1) != key_phase:
         if next_keys is None:
             next_keys = keys.next()
         k, used_next = next_keys, True
     try:
-        payload = k.aead.decrypt(k.nonce(pn), bytes(packet[pn_offset + pnl:]), header)
+        payload = k.aead.decrypt(k.nonce(pn % (1 << 64)) if decode else k.nonce(pn), bytes(packet[pn_offset + pnl:]), header)
     except InvalidTag:
         raise AuthError("AEAD")
     return header, payload, pn, used_next
